@@ -823,6 +823,9 @@ class CellsImpl(*_cells_impl_base):
     def clear_all_values(self, clear_input):
         for key in list(self.data):
             self.clear_value_at(key, clear_input)
+        if not self.is_cached:
+            # Values calculated through uncached cells hang on its object node
+            self.model.clear_with_descs((self,))
 
     def clear_value_at(self, key, clear_input=True):
         if self.has_node(key):
